@@ -66,7 +66,7 @@ func (vc *VC) run() (err error) {
 	vc.panicOK = "true"
 	if c != nil {
 		for i, cl := range c.Requires {
-			s, err := env.evalBool(cl.Expr)
+			s, err := env.evalAssume(cl.Expr)
 			if err != nil {
 				return fmt.Errorf("%s: requires %s: %v", vc.key, c.clauseName(cl, i), err)
 			}
@@ -76,7 +76,7 @@ func (vc *VC) run() (err error) {
 		case "never":
 			vc.panicOK = "false"
 		case "when":
-			s, err := env.evalBool(c.PanicsWhen.Expr)
+			s, err := env.evalAssume(c.PanicsWhen.Expr)
 			if err != nil {
 				return fmt.Errorf("%s: panics when: %v", vc.key, err)
 			}
@@ -95,7 +95,7 @@ func (vc *VC) run() (err error) {
 		if !vc.axiomApplies(ax) {
 			continue
 		}
-		s, err := env.evalBool(ax.Expr)
+		s, err := env.evalAssume(ax.Expr)
 		if err != nil {
 			continue // axiom mentions names not visible from this package
 		}
@@ -226,10 +226,13 @@ func (vc *VC) mergeHeaps(b *ssa.BasicBlock, preds []*ssa.BasicBlock) *Heap {
 		out.m[c] = vc.define(c, vc.compSort[c], t)
 	}
 	if !same {
-		// alloc of a fresh epoch must dominate the merged one
-		if _, ok := out.m["$alloc"]; !ok {
-			out.m["$alloc"] = vc.fresh("$alloc", SInt)
+		// the merged state starts a new epoch: its watermark is a fresh constant above the merged one
+		n := fmt.Sprintf("$alloc@e%d", out.epoch)
+		vc.u.declare(n, fmt.Sprintf("(declare-const %s Int)", n))
+		if prev, ok := out.m["$alloc"]; ok {
+			vc.emit(fmt.Sprintf("(assert (>= %s %s))", n, prev))
 		}
+		out.m["$alloc"] = n
 	}
 	return out
 }
@@ -342,7 +345,7 @@ func (vc *VC) loopHead(b *ssa.BasicBlock, n int, h *Heap, reach string) *Heap {
 	env := vc.loopEnv(b, b, h, entryVals)
 	env.pre = nil
 	for i, cl := range ls.Invariants {
-		s, err := env.evalBool(cl.Expr)
+		s, err := env.evalGoal(cl.Expr)
 		if err != nil {
 			panic(evalError{fmt.Sprintf("loop %d invariant %s: %v", n, vc.contract.clauseName(cl, i), err)})
 		}
@@ -364,6 +367,7 @@ func (vc *VC) loopHead(b *ssa.BasicBlock, n int, h *Heap, reach string) *Heap {
 		a1 := vc.fresh("$alloc", SInt)
 		vc.emit(fmt.Sprintf("(assert (>= %s %s))", a1, a0))
 		hh.m["$alloc"] = a1
+		vc.flushWf(hh)
 	}
 	phis := map[*ssa.Phi]Term{}
 	for _, in := range b.Instrs {
@@ -382,7 +386,7 @@ func (vc *VC) loopHead(b *ssa.BasicBlock, n int, h *Heap, reach string) *Heap {
 	vc.hdrPhi[b] = phis
 	env2 := vc.loopEnv(b, b, hh, nil)
 	for i, cl := range ls.Invariants {
-		s, err := env2.evalBool(cl.Expr)
+		s, err := env2.evalAssume(cl.Expr)
 		if err != nil {
 			panic(evalError{fmt.Sprintf("loop %d invariant %s: %v", n, vc.contract.clauseName(cl, i), err)})
 		}
@@ -413,14 +417,14 @@ func (vc *VC) backEdge(p, hdr *ssa.BasicBlock, h *Heap, reach string) {
 		sfx = fmt.Sprintf(".%d", k)
 	}
 	for i, cl := range ls.Invariants {
-		s, err := env.evalBool(cl.Expr)
+		s, err := env.evalGoal(cl.Expr)
 		if err != nil {
 			panic(evalError{fmt.Sprintf("loop %d invariant: %v", n, err)})
 		}
 		vc.oblige("invariant", fmt.Sprintf("loop%d.%s.preserved%s", n, vc.contract.clauseName(cl, i), sfx), cl.Tags, reach, s, cl.Src)
 	}
 	for i, cl := range ls.Steps {
-		s, err := env.evalBool(cl.Expr)
+		s, err := env.evalGoal(cl.Expr)
 		if err != nil {
 			panic(evalError{fmt.Sprintf("loop %d step: %v", n, err)})
 		}
@@ -588,6 +592,7 @@ func (vc *VC) addrOf(v ssa.Value, reach string, check bool) *Addr {
 		comp := globalComp(g)
 		s := vc.u.sortOf(et)
 		vc.compDecl(comp, s)
+		vc.compType[comp] = et
 		return &Addr{comp: comp, kind: 'g', top: s, topT: et, typ: et}
 	}
 	// a pointer value: cell or struct object
@@ -855,7 +860,7 @@ func (vc *VC) execIndexAddr(x *ssa.IndexAddr, h *Heap, reach string) {
 		s := vc.value(x.X)
 		vc.check("index", reach, and(app("<=", "0", iv.S), app("<", iv.S, app("s.len", s.S))), "index of "+x.X.Name())
 		comp, es := vc.elemComp(t.Elem())
-		vc.addrs[x] = &Addr{comp: comp, kind: 'e', ref: app("s.arr", s.S), idx: vc.define("idx", SInt, app("+", app("s.off", s.S), iv.S)), top: es, topT: t.Elem(), typ: t.Elem()}
+		vc.addrs[x] = &Addr{comp: comp, kind: 'e', ref: app("s.arr", s.S), off: app("s.off", s.S), idx: iv.S, top: es, topT: t.Elem(), typ: t.Elem()}
 	case *types.Pointer:
 		at := t.Elem().Underlying().(*types.Array)
 		p := vc.value(x.X)
@@ -866,7 +871,7 @@ func (vc *VC) execIndexAddr(x *ssa.IndexAddr, h *Heap, reach string) {
 		}
 		vc.check("index", reach, and(app("<=", "0", iv.S), app("<", iv.S, fmt.Sprint(at.Len()))), "array index")
 		comp, es := vc.elemComp(at.Elem())
-		vc.addrs[x] = &Addr{comp: comp, kind: 'e', ref: p.S, idx: iv.S, top: es, topT: at.Elem(), typ: at.Elem()}
+		vc.addrs[x] = &Addr{comp: comp, kind: 'e', ref: p.S, off: "0", idx: iv.S, top: es, topT: at.Elem(), typ: at.Elem()}
 	default:
 		panic(unsupportedErr("IndexAddr on " + x.X.Type().String()))
 	}
@@ -1292,7 +1297,7 @@ func (vc *VC) checkReturn(b *ssa.BasicBlock, results []Term, h *Heap, reach stri
 	env := vc.retEnv(results, h)
 	if c != nil {
 		for i, cl := range c.Ensures {
-			s, err := env.evalBool(cl.Expr)
+			s, err := env.evalGoal(cl.Expr)
 			if err != nil {
 				panic(evalError{fmt.Sprintf("ensures %s: %v", c.clauseName(cl, i), err)})
 			}
@@ -1317,7 +1322,7 @@ func (vc *VC) checkReturn(b *ssa.BasicBlock, results []Term, h *Heap, reach stri
 			lenv.vars[k] = v
 		}
 		for i, cl := range ls.Exits {
-			s, err := lenv.evalBool(cl.Expr)
+			s, err := lenv.evalGoal(cl.Expr)
 			if err != nil {
 				panic(evalError{fmt.Sprintf("loop %d exit: %v", n, err)})
 			}
@@ -1434,6 +1439,7 @@ func (vc *VC) modItem(env *Env, e *Expr, out map[string][]string) {
 				if v, ok := o.(*types.Var); ok {
 					comp := "G_" + sanitize(shortPkg(v.Pkg().Path())) + "_" + v.Name()
 					vc.compDecl(comp, vc.u.sortOf(v.Type()))
+					vc.compType[comp] = v.Type()
 					out[comp] = append(out[comp], "*")
 					return
 				}
